@@ -97,7 +97,14 @@ class KernExporter(object):
         # Part elements is really the maximum number of lines we could have in the kern file
         # we add some to account for the **kern and the *- encoding at beginning and end of file and also tandem elements
         # that might be added. We also add the number of measures to account for the measure encoding
-        total_elements_ish = num_measures + num_notes + num_rests + 2 + 10
+        # (every change of clef, key or time signature is a line of its own)
+        num_tandem = sum(
+            len(list(part.iter_all(cls)))
+            for cls in (spt.Clef, spt.KeySignature, spt.TimeSignature)
+        )
+        total_elements_ish = (
+            num_measures + num_notes + num_rests + num_tandem + 2 + 10
+        )
         self.out_data = np.empty(
             (total_elements_ish, len(self.unique_voc_staff)), dtype=object
         )
